@@ -30,18 +30,29 @@ PINNED_FRAMESRC_SHA256 = "3c7ea25009112ec4957c80800624a77a455fea221e222a83cc2cc6
 _SRC_STATE = {}
 
 
-def framesrc_changed():
-    if "v" not in _SRC_STATE:
+PINNED_FEATURENAMESSRC_SHA256 = "4219d7b993e86bbf90261e36ddca895e886841dc266c659800dc71796435a830"
+
+
+def _generated_changed(fname, pinned):
+    if fname not in _SRC_STATE:
         import hashlib
         import os
         from .. import leanrun
-        path = os.path.join(leanrun.LEAN, "FairModel", "Generated", "FrameSrc.lean")
+        path = os.path.join(leanrun.LEAN, "FairModel", "Generated", fname)
         try:
             with open(path, "rb") as f:
-                _SRC_STATE["v"] = hashlib.sha256(f.read()).hexdigest() != PINNED_FRAMESRC_SHA256
+                _SRC_STATE[fname] = hashlib.sha256(f.read()).hexdigest() != pinned
         except OSError:
-            _SRC_STATE["v"] = False
-    return _SRC_STATE["v"]
+            _SRC_STATE[fname] = False
+    return _SRC_STATE[fname]
+
+
+def framesrc_changed():
+    return _generated_changed("FrameSrc.lean", PINNED_FRAMESRC_SHA256)
+
+
+def featurenamessrc_changed():
+    return _generated_changed("FeatureNamesSrc.lean", PINNED_FEATURENAMESSRC_SHA256)
 
 
 def kw_sum(y_true, y_pred, **kw):
@@ -550,7 +561,12 @@ class CHECK(Check):
                 ok = len(t) == 2 and proto.p_strs(t[0]) == want[0] and \
                     ((t[1] == "none" and want[1] is None) or (t[1] != "none" and want[1] is not None and proto.p_strs(t[1]) == want[1]))
             if not ok:
-                probs.append(Problem("harness", f"names model {m} vs oracle {want}"))
+                if featurenamessrc_changed():
+                    probs.append(Problem("correspondence", "the names model built from the lifted base names / default-name "
+                                         f"format departs from the first-principles oracle (sources changed): model {m} vs oracle {want}",
+                                         "C01.generated-source-vs-oracle"))
+                else:
+                    probs.append(Problem("harness", f"names model {m} vs oracle {want}"))
         return probs
 
     def judge(self, case, o, mo):
